@@ -125,6 +125,38 @@ Proof.
   - destruct i; reflexivity.
 Qed.
 
+(* ---------------------------------------------------------------- state = last reached *)
+
+Lemma pstate_eqb_refl s : pstate_eqb s s = true.
+Proof. destruct s; reflexivity. Qed.
+
+Lemma model_obs_step_st w i : b_st (model_obs_step w i) = st (fst (step w i)).
+Proof. unfold model_obs_step. destruct (step w i). reflexivity. Qed.
+
+Lemma tst_step w i :
+  forallb (tst_event_b (st w) (match reached_by i with Some s => s | None => st w end))
+          (b_evs (model_obs_step w i)) = true.
+Proof.
+  rewrite model_obs_step_evs.
+  destruct i; cbn [step]; rewrite ?on_about_to_finish_evs, ?on_source_setup_evs; try reflexivity.
+  - destruct from_playbin; [|reflexivity]. unfold on_state_changed.
+    destruct n, p; cbn; try reflexivity; destruct (target w); cbn;
+      rewrite ?pstate_eqb_refl; reflexivity.
+  - unfold on_buffering. destruct (rank (target w) <? rank PAUSED); [reflexivity|].
+    destruct mode as [[]|]; reflexivity.
+  - unfold on_tag. destruct (pending_tags w); [reflexivity|].
+    destruct (tag_diff (tags w) (convert_taglist tl)) as [c ch]. destruct ch; reflexivity.
+  - unfold on_stream_start. cbn.
+    destruct (match pending_tags w with Some t => t | None => [] end); reflexivity.
+Qed.
+
+Lemma tst_model : forall ins w, tst_b (st w) ins (model_obs w ins) = true.
+Proof.
+  induction ins as [|i t IH]; intros w; [reflexivity|].
+  cbn [model_obs tst_b]. rewrite model_obs_step_st, tst_step, step_st, pstate_eqb_refl.
+  cbn [andb]. rewrite <- step_st. apply IH.
+Qed.
+
 Theorem model_passes_monitors : forall ins,
   monitor_code (ins, model_obs init ins) = 0.
 Proof.
@@ -134,5 +166,5 @@ Proof.
   change NULL with (target init). rewrite t5_model by reflexivity.
   rewrite t1_model.
   pose proof (t4a_model ins init) as T4. cbn [init cfg atf_cb pending_tags is_some] in T4.
-  rewrite T4. reflexivity.
+  rewrite T4. change Stopped with (st init). rewrite tst_model. reflexivity.
 Qed.
